@@ -127,6 +127,9 @@ class Engine(CallMixin):
         pre = self.eval_clause_dict(c.requires, env)
         st = st.assume(*pre.values())
         env.st = st
+        if c.ghost_enter is not None:
+            c.ghost_enter(env)          # ghost prologue: e.g. set the LRU marks at the start of a statement
+            st = env.st
         env.snapshot_old()
         old_heap = st.heap
         # vacuity: the precondition must be satisfiable
@@ -191,6 +194,9 @@ class Engine(CallMixin):
             post = {}
         for lab, g in post.items():
             serves = tuple(c.tags.get(lab, c.serves))
+            for suf, props in c.tag_suffix.items():
+                if lab.endswith(suf):
+                    serves = tuple(props)
             self.oblige(st2, lab, "ensures", g, fi.node, serves)
         self._check_frame(c, fi, st2, binds, old_heap, c.modifies)
 
@@ -218,7 +224,11 @@ class Engine(CallMixin):
                 self.oblige(st, f"on-raise-clause-evaluable({ex})", "raises", False, fi.node)
                 post = {}
             for lab, g in post.items():
-                self.oblige(st, f"on-raise.{lab}", "raises", g, fi.node)
+                serves = None
+                for suf, props in c.tag_suffix.items():
+                    if lab.endswith(suf):
+                        serves = tuple(props)
+                self.oblige(st, f"on-raise.{lab}", "raises", g, fi.node, serves)
             self._check_frame(c, fi, st, binds, old_heap, c.modifies, tag="on-raise.")
         else:
             self._check_frame(c, fi, st, binds, old_heap, [], tag="on-raise.")
